@@ -96,7 +96,7 @@ let do_hist toks =
             | 'P' -> History.Proc
             | 'N' -> History.QNs (bytes_of_hex (Str_.sub o 1 (Str_.length o - 1)))
             | _ -> History.QTree) in
-        let (st', x) = History.step (fun v -> v) (fun l -> l) fx !st op in
+        let (st', x) = History.step (fun v -> v) fx !st op in
         st := st';
         (match x with
          | History.OLoad ok ->
